@@ -264,6 +264,40 @@ class Duck(object):
         return self._f.cancel()
 
 
+class EmptyBatch(Future):
+    """A Future subclass whose instances are falsy (a container-like future with __len__ == 0)."""
+
+    def __len__(self):
+        return 0
+
+
+def c_flat_map_falsy_future(v: int, kind: int, k: int, form: int) -> bool:
+    """
+    pre: 0 <= kind <= 3 and 0 <= form <= 1
+    post: __return__
+    """
+    # "return future in any state": also a future object that happens to be falsy.
+    # kind 0 resolved, 1 failed, 2 resolved later, 3 pending and the output is cancelled (request is forwarded)
+    inner = EmptyBatch()
+    inner_exc = E2("inner")
+    if kind == 0:
+        inner.set_result(v + k)
+    elif kind == 1:
+        inner.set_exception(inner_exc)
+    out = _apply(form, _mk_input(False, v, None), lambda x: inner, None, flat=True)
+    if kind == 2:
+        if out.done():
+            return False
+        inner.set_result(v + k)
+    if kind == 3:
+        return out.cancel() is True and inner.cancelled() and out.cancelled()
+    if not out.done():
+        return False
+    if kind == 1:
+        return out.exception() is inner_exc
+    return out.exception() is None and out.result() == v + k
+
+
 def c_flat_map_future_like(v: int, kind: int, k: int, form: int, via_error_fn: bool) -> bool:
     """
     pre: 0 <= kind <= 5 and 0 <= form <= 1
